@@ -5,6 +5,7 @@ import (
 	"fmt"
 	"io"
 	"log/slog"
+	"math"
 	"slices"
 	"time"
 
@@ -114,7 +115,7 @@ func (l *queryLog) search(
 ) (entries []*logEntry, oldest time.Time) {
 	start := time.Now()
 
-	if params.limit == 0 {
+	if params.limit <= 0 || params.offset < 0 {
 		return []*logEntry{}, time.Time{}
 	}
 
@@ -129,6 +130,10 @@ func (l *queryLog) search(
 	total += bufLen
 
 	totalLimit := params.offset + params.limit
+	if totalLimit < 0 {
+		// The sum has overflown.
+		totalLimit = math.MaxInt
+	}
 
 	// now let's get a unified collection
 	entries = append(memoryEntries, fileEntries...)
@@ -281,6 +286,10 @@ func (l *queryLog) searchFiles(
 	}()
 
 	totalLimit := params.offset + params.limit
+	if totalLimit < 0 {
+		// The sum has overflown.
+		totalLimit = math.MaxInt
+	}
 	entries, oldestNano, total := l.readEntries(ctx, r, params, cache, totalLimit)
 	if oldestNano != 0 {
 		oldest = time.Unix(0, oldestNano)
